@@ -38,13 +38,24 @@ VARIABLES l,        \* next line
 
 vars == <<l, sh, th, ob, gh, ex, sum>>
 
+Line == Rec[l]
 MaxFails == 20
 MaxPerMon == 6
 (* keep the first failure of each monitor per execution *)
-AddFails(s, fs) ==
+(* An execution in which the code wrote to a map entry IN PLACE (through a write guard: the `get_mut` event) has
+   changed an order without any event the observer could see; the content-based monitors (conservation C03,
+   hand-out C08, statistics C15 of the ghost) cannot be judged on it and their failures are recorded as drift.
+   The aggregate-range monitor C12, the acknowledgement monitor C13 and id uniqueness C14 do not depend on order
+   contents and stay in force. *)
+Blind == {"C03", "C08", "C15", "C01"}
+AddFails(s0, fs0) ==
   \* the first failure of each monitor per execution, at most MaxPerMon executions per monitor
   \* (a cap over all monitors together would let a noisy monitor hide the others)
-  LET new == {f \in fs : /\ ~\E g \in s.fails : g.mon = f.mon /\ g.sc = f.sc /\ g.run = f.run
+  LET inpl == ex.inplace \/ (Line.k = "op" /\ Line.op = "get_mut")
+      fs  == IF inpl THEN {f \in fs0 : f.mon \notin Blind} ELSE fs0
+      s   == IF inpl /\ fs # fs0 /\ Cardinality(s0.drifts) < MaxFails
+             THEN [s0 EXCEPT !.drifts = @ \cup {[line |-> l, sc |-> ex.sc, run |-> ex.run]}] ELSE s0
+      new == {f \in fs : /\ ~\E g \in s.fails : g.mon = f.mon /\ g.sc = f.sc /\ g.run = f.run
                          /\ Cardinality({g \in s.fails : g.mon = f.mon}) < MaxPerMon} IN
   [s EXCEPT !.fails = @ \cup new]
 
@@ -71,10 +82,9 @@ Init ==
   /\ l = 1
   /\ sh = EmptyShared /\ th = <<>> /\ ob = EmptyShared
   /\ gh = GhostInit({}, EmptyMap)
-  /\ ex = [sc |-> -1, run |-> -1, drift |-> 0, drained |-> FALSE]
+  /\ ex = [sc |-> -1, run |-> -1, drift |-> 0, drained |-> FALSE, inplace |-> FALSE]
   /\ sum = [execs |-> 0, ops |-> 0, drifts |-> {}, fails |-> {}, kf |-> {}, quiet |-> 0, retchk |-> 0]
 
-Line == Rec[l]
 
 DoReset ==
   /\ Line.k = "reset"
@@ -82,7 +92,7 @@ DoReset ==
      /\ sh' = o /\ ob' = o
      /\ th' = [t \in 1..Line.n |-> IdleLocal]
      /\ gh' = GhostInit(1..Line.n, o.qmap)
-     /\ ex' = [sc |-> Line.sc, run |-> Line.run, drift |-> 0, drained |-> FALSE]
+     /\ ex' = [sc |-> Line.sc, run |-> Line.run, drift |-> 0, drained |-> FALSE, inplace |-> FALSE]
      /\ sum' = AddFails([sum EXCEPT !.execs = @ + 1, !.kf = @ \cup gh.kf],
                         IF ApiOk(Line.st) /\ ListOk(Line.st) THEN {} ELSE {[mon |-> "C01", line |-> l, sc |-> Line.sc, run |-> Line.run]})
 
@@ -128,7 +138,8 @@ DoOp ==
         /\ IF stepping /\ ok
            THEN sh' = n.sh /\ th' = [th EXCEPT ![t] = n.me]
            ELSE UNCHANGED <<sh, th>>
-        /\ ex' = IF ok THEN ex ELSE [ex EXCEPT !.drift = l]
+        /\ ex' = LET e1 == IF ok THEN ex ELSE [ex EXCEPT !.drift = l]
+                 IN IF Line.op = "get_mut" THEN [e1 EXCEPT !.inplace = TRUE] ELSE e1
         /\ sum' = AddFails([sum EXCEPT !.ops = @ + 1,
                                         !.drifts = IF ok \/ Cardinality(@) >= MaxFails THEN @
                                                    ELSE @ \cup {[line |-> l, sc |-> ex.sc, run |-> ex.run]}],
